@@ -1,5 +1,52 @@
 package props
 
-import "strconv"
+import (
+	"strconv"
+
+	"golang.org/x/tools/go/ssa"
+
+	. "verif/checker/engine"
+)
 
 func itoa(i int) string { return strconv.Itoa(i) }
+
+// displayCall recognises a position computed by report.DisplayPosition: either
+// the call itself, or a call of a small function/closure whose every return is
+// DisplayPosition(<file set>, <its parameter>). It returns the file-set
+// expression and the token.Pos argument.
+func displayCall(v ssa.Value) (fset, pos ssa.Value, ok bool) {
+	const disp = Module + "/analysis/report.DisplayPosition"
+	call, isCall := v.(*ssa.Call)
+	if !isCall {
+		return nil, nil, false
+	}
+	if IsCallTo(call, disp) {
+		return call.Call.Args[0], call.Call.Args[1], true
+	}
+	var callee *ssa.Function
+	if callee = call.Call.StaticCallee(); callee == nil && !call.Call.IsInvoke() {
+		for x := range BackSlice(call.Call.Value, SliceOpts{}) {
+			if mc, ok := x.(*ssa.MakeClosure); ok {
+				callee, _ = mc.Fn.(*ssa.Function)
+			}
+		}
+	}
+	if callee == nil || callee.Blocks == nil || len(callee.Blocks) > 2 {
+		return nil, nil, false
+	}
+	for _, r := range Returns(callee) {
+		if len(r.Results) != 1 {
+			return nil, nil, false
+		}
+		inner, isInner := r.Results[0].(*ssa.Call)
+		if !isInner || !IsCallTo(inner, disp) {
+			return nil, nil, false
+		}
+		for pi, prm := range callee.Params {
+			if inner.Call.Args[1] == ssa.Value(prm) && pi < len(call.Call.Args) {
+				fset, pos, ok = inner.Call.Args[0], call.Call.Args[pi], true
+			}
+		}
+	}
+	return fset, pos, ok
+}
